@@ -205,7 +205,11 @@ func (r *Report) finish(verifDir string, seed int, start time.Time, st runStats,
 		}
 		return r.Obligs[i].Key < r.Obligs[j].Key
 	})
-	replayDir := filepath.Join(verifDir, "evidence", "replay")
+	evBase := filepath.Join(verifDir, "evidence")
+	if evidenceDirOverride != "" {
+		evBase = evidenceDirOverride
+	}
+	replayDir := filepath.Join(evBase, "replay")
 	os.MkdirAll(replayDir, 0755)
 	// remove stale replay files of this property
 	if old, _ := filepath.Glob(filepath.Join(replayDir, r.Property+"-*.json")); old != nil {
@@ -309,8 +313,8 @@ func (r *Report) finish(verifDir string, seed int, start time.Time, st runStats,
 		Assumptions: assumptions, WallS: time.Since(start).Seconds(), Violations: nBad,
 	}
 	b, _ := json.MarshalIndent(ev, "", " ")
-	os.MkdirAll(filepath.Join(verifDir, "evidence"), 0755)
-	if err := os.WriteFile(filepath.Join(verifDir, "evidence", r.Property+".json"), b, 0644); err != nil {
+	os.MkdirAll(evBase, 0755)
+	if err := os.WriteFile(filepath.Join(evBase, r.Property+".json"), b, 0644); err != nil {
 		fmt.Println("cannot write evidence:", err)
 		return 1
 	}
